@@ -37,7 +37,7 @@ def main(tier, seed):
     chk = Check("C18", tier, seed)
     chk.assumptions = list(ASSUMPTIONS)
     c18.obligations(chk)
-    if tier == "thorough":
+    if tier in ("quick", "thorough"):      # the replay on the real code takes < 1 s: run it in both tiers (never counted as proved)
         fails, n, d = c18_concrete.search(stop_at=3)
         chk.bounded.append({"name": "bounded cross-check: concrete case table of the statement on the real serdes",
                             "evaluations": n, "distinct_nontrivial": d, "failures": len(fails),
